@@ -88,9 +88,9 @@ func lockOp(info *types.Info, call *ast.CallExpr) (op string, l Lock, ok bool) {
 		return "", Lock{}, false
 	}
 	switch CalleeName(info, call) {
-	case "sync.Mutex.Lock", "sync.RWMutex.Lock", "sync.RWMutex.RLock":
+	case "sync.Mutex.Lock", "sync.RWMutex.Lock", "sync.RWMutex.RLock", "p.Mutex.Lock":
 		op = "lock"
-	case "sync.Mutex.Unlock", "sync.RWMutex.Unlock", "sync.RWMutex.RUnlock":
+	case "sync.Mutex.Unlock", "sync.RWMutex.Unlock", "sync.RWMutex.RUnlock", "p.Mutex.Unlock":
 		op = "unlock"
 	default:
 		return "", Lock{}, false
